@@ -52,6 +52,12 @@ Proof.
 Qed.
 Print Assumptions trotter_symmetric.
 
+Example trotter_symmetric_nonvacuous :   (* the additive group of integers: U_a(x) = a x *)
+  let U := fun (a x : Z) => (a * x)%Z in
+  (forall a x, (U a x + U a (- x) = 0)%Z) /\
+  circ Z Z Z Z.add 0%Z U (trotter_seq [2; 3; 5]%Z) 7%Z = 140%Z.
+Proof. split; [intros; cbn; ring|reflexivity]. Qed.
+
 (* ---- nsteps = int((T - t0)/dt) in binary64 ----
    full statement: forall decimals a,b,c (k digits) with b - a = m c:  nsteps = Some m.  FALSE: *)
 Theorem nsteps_refuted : exists (k : nat) (a b c m : Z),
@@ -82,6 +88,11 @@ Theorem exp_solver_steps : forall n c P psi k, wfm (2 ^ n) (2 ^ n) P -> wfm (2 ^
   evolve (exp_step P) (Z.of_nat k) psi = mmul ZK (mpow ZK n P k) psi.
 Proof. exact exp_steps. Qed.
 Print Assumptions exp_solver_steps.
+
+Example exp_solver_steps_nonvacuous :
+  wfm (2 ^ 1) (2 ^ 1) (pmat PY) /\ wfm (2 ^ 1) 1 [[zi1]; [zii]] /\
+  evolve (exp_step (pmat PY)) 3 [[zi1]; [zii]] = [[(1, 0)%Z]; [(0, 1)%Z]].
+Proof. repeat split; try reflexivity; repeat constructor. Qed.
 
 (* ---- Runge-Kutta steps for a constant Hamiltonian, in any commutative ring containing i and the
         inverses of the primes of the tableaux (the commutative algebra generated by H) ---- *)
